@@ -487,7 +487,7 @@ def plan_C01(rep, seed, tier):
     rv(rep, binp, 'dec-whole', seed, tier, shards=32 if tier == 'thorough' else 16, budget=1e7)
     rep.cov['rule'] = ('whole-stream decodes through decode_to_utf8/utf16 with and without replacement: every 1-byte string x 40 encodings x 4 forms; '
                        'every 2-byte string for the 12 multi-byte/stateful encodings (+ seed-rotated single-byte ones; all 40 in thorough); '
-                       'all 3/4-byte strings over per-encoding class alphabets; EUC-JP 8F xx yy, gb18030 four-byte range pointers; seeded grammar strings')
+                       'all 3/4-byte strings over per-encoding class alphabets; EUC-JP 8F xx yy (all), all gb18030 four-byte range pointers, ISO-2022-JP every byte / pair after each escape; seeded grammar strings')
 
 
 def plan_C02(rep, seed, tier):
